@@ -67,6 +67,26 @@ def rand_chunks(rng, shape, zero_p=0.0):
     return tuple(rand_chunks_1d(rng, n, zero_p) for n in shape)
 
 
+def big_shape_chunks(rng, maxlen=40, zero_p=0.0):
+    """A 1-d or 2-d shape with one LONG axis (9 … maxlen) cut into 1–4 chunks, so that single chunks hold 7–40
+    elements (code paths that depend on the chunk size — k vs. chunk length, partition sizes, thresholds — are not
+    reached by the small shapes used elsewhere)."""
+    n = rng.randint(9, maxlen)
+    k = rng.randint(0, 3)
+    cuts = sorted(rng.sample(range(1, n), k)) if k else []
+    long_chunks = tuple(b - a for a, b in zip([0] + cuts, cuts + [n]))
+    if zero_p and rng.random() < zero_p:
+        pos = rng.randint(0, len(long_chunks))
+        long_chunks = long_chunks[:pos] + (0,) + long_chunks[pos:]
+    if rng.random() < 0.5:
+        return (n,), (long_chunks,)
+    m = rng.randint(1, 4)
+    other = rand_chunks_1d(rng, m)
+    if rng.random() < 0.5:
+        return (n, m), (long_chunks, other)
+    return (m, n), (other, long_chunks)
+
+
 def block_bounds(chunks_1d):
     """[(start, stop)] for one axis."""
     out, s = [], 0
